@@ -343,8 +343,10 @@ Qed.
 (* ---------------------------------------------------------------- what follows the closure of a scoped call *)
 (* releases, flag writes, the key: no acquisition and no closure-entry marker *)
 Definition rop_acq (k : rop) : bool := match k with OLock | OTry | OLockSh | OTrySh => true | _ => false end.
-Definition tailop (o : op) : Prop := match o with ORaw k _ => rop_acq k = false | OMark _ => False | _ => True end.
-Definition tail_ev (e : ev) : Prop := match e with ERaw _ k _ _ => rop_acq k = false | EMark _ _ => False | _ => True end.
+Definition tailop (o : op) : Prop :=
+  match o with ORaw k _ => rop_acq k = false | OMark _ | OSeePoison _ => False | _ => True end.
+Definition tail_ev (e : ev) : Prop :=
+  match e with ERaw _ k _ _ => rop_acq k = false | EMark _ _ | ESee _ _ => False | _ => True end.
 
 Lemma run_tail pw t p w out w' :
   ops_in tailop p -> run pw t p w = (out, w') -> exists evs, w_trace w' = evs ++ w_trace w /\ Forall tail_ev evs.
